@@ -14,7 +14,7 @@ PROPS = {
         "assumptions": ["encoding/json round trip of add/remove payloads is not modelled (exercised by applying the real events through the real handlers)"],
     },
     "C14": {
-        "suites": [("pure", "rid"), ("pure", "rpc"), ("pure", "path"), ("gw", "mixed")],
+        "suites": [("pure", "rid"), ("pure", "rpc"), ("pure", "path"), ("pure", "httppath"), ("gw", "mixed")],
         "theorems_carry": "validator specs for all byte strings; {cid} expansion preserves validity; every subject of a dispatched WebSocket request is hygienic; no dot => no service traffic",
         "correspondence_only": "HTTP path mapping (net/url), that the gateway builds subjects as the model's subjectsFor does",
         "assumptions": ["rune iteration of IsValidRID equals the byte loop (tied by the 256-byte class table and exhaustive short strings)"],
